@@ -7,6 +7,8 @@
 (*   ems    heap of Emulsion objects     ([mem: Seq(ObjId), dt: layout])   *)
 (*   tcs    heap of EmulsionTimeCourse   ([times, ems: Seq(EmId)])         *)
 (*   trks   heap of DropletTrack         ([times, objs: Seq(ObjId)])       *)
+(*   tls    heap of DropletTrackList     (Seq(TrkId): a plain list -- its  *)
+(*          slices hold THE SAME track objects, as documented for lists)   *)
 (*   refs   droplet references held by the caller                          *)
 (*   ev     Emulsion references held by the caller                         *)
 (*   arr    rows of the array returned by the last get_linked_data()       *)
@@ -34,6 +36,8 @@ CONSTANTS
     MinRs,      \* min_radius arguments (copy / remove_small)
     MutRs,      \* radii written through a reference or through the linked array
     MinDists,   \* min_distance arguments of remove_overlapping
+    TlLists,    \* set of index sequences into trks (arguments of DropletTrackList(..))
+    MinDurs,    \* min_duration arguments of remove_short_tracks
     MaxDrops, MaxEms, MaxRefs, MaxEv, MaxTcs, MaxTrks, MaxLen, Depth,
     Ops,        \* names of the operations enabled in this instance
     Observe(_, _, _)   \* (op, new state, error): print the transition (model checking) or
@@ -149,7 +153,7 @@ Queries(s) ==
 ---------------------------------------------------------------------------
 Init ==
     /\ st = [drops |-> InitVals, refs |-> [i \in Range(Len(InitVals)) |-> i],
-             ems |-> <<>>, ev |-> <<>>, tcs |-> <<>>, trks |-> <<>>, arr |-> <<>>,
+             ems |-> <<>>, ev |-> <<>>, tcs |-> <<>>, trks |-> <<>>, tls |-> <<>>, arr |-> <<>>,
              shared |-> {}, eshared |-> {}]
     /\ n = 0
 
@@ -409,7 +413,27 @@ TrkIndex ==
         Commit([op |-> "TrkIndex", k |-> k, i |-> i],
                [st EXCEPT !.refs = Append(@, st.trks[k].objs[i]), !.shared = @ \cup {st.trks[k].objs[i]}], "")
 
+(* ---------------------------- DropletTrackList ---------------------------- *)
+MaxTls == 3
+TlNew ==
+    /\ Go("TlNew") /\ Len(st.tls) < MaxTls
+    /\ \E L \in TlLists :
+        /\ \A i \in Range(Len(L)) : L[i] <= Len(st.trks)
+        /\ Commit([op |-> "TlNew", L |-> L], [st EXCEPT !.tls = Append(@, L)], "")
+\* a slice of a track list is a new list of the same tracks
+TlSlice ==
+    /\ Go("TlSlice") /\ Len(st.tls) < MaxTls
+    /\ \E l \in Range(Len(st.tls)) : \E lo \in 0..Len(st.tls[l]) : \E hi \in lo..Len(st.tls[l]) :
+        Commit([op |-> "TlSlice", l |-> l, lo |-> lo, hi |-> hi], [st EXCEPT !.tls = Append(@, SliceSeq(st.tls[l], lo, hi))], "")
+\* tracks whose duration (last time - first time) does not exceed min_duration are dropped, in place
+TlRemoveShort ==
+    /\ Go("TlRemoveShort")
+    /\ \E l \in Range(Len(st.tls)), md \in MinDurs :
+        Commit([op |-> "TlRemoveShort", l |-> l, md |-> md],
+               [st EXCEPT !.tls[l] = SelectSeq(@, LAMBDA k : Duration(st.trks[k].times) > md)], "")
+
 Next ==
+    \/ TlNew \/ TlSlice \/ TlRemoveShort
     \/ EmNew \/ EmAppend \/ EmExtend \/ EmCopy \/ EmSlice \/ EmIndex \/ EmAdd \/ EmRemoveSmall
     \/ EmRemoveOv \/ EmLink \/ ArrWrite \/ Mutate \/ EmMerge
     \/ TcNew \/ TcAppend \/ TcSlice \/ TcCopy \/ TcIndex \/ TcClear
@@ -441,6 +465,8 @@ Owned ==
 ArrShared == SeqSet(st.arr) \subseteq st.shared
 
 \* objects are never freed or renumbered; existing collections are only edited through their own id
+\* a track list only ever refers to existing tracks
+TlValid == \A l \in Range(Len(st.tls)) : \A i \in Range(Len(st.tls[l])) : st.tls[l][i] \in Range(Len(st.trks))
 HeapGrows == [][/\ Len(st'.drops) >= Len(st.drops) /\ Len(st'.ems) >= Len(st.ems)
                 /\ Len(st'.tcs) >= Len(st.tcs) /\ Len(st'.trks) >= Len(st.trks)
                 /\ \A i \in Range(Len(st.refs)) : st'.refs[i] = st.refs[i]
